@@ -253,7 +253,11 @@ def zst_guard(chk, prog, config="default"):
             continue
         if o.value[2] == 1:
             somes += 1
-            cons = {(_s(a), _s(b)): rel for (a, b), rel in o.st.cons.items()}
+            cons = {}
+            for (a, b), rel in o.st.cons.items():
+                cons[(_s(a), _s(b))] = rel
+                # the same fact with the operands written the other way round
+                cons[(_s(b), _s(a))] = frozenset(rel_.translate(str.maketrans("<>", "><")) for rel_ in rel)
             sz = cons.get(("size_of<T>", "0"))
             al = cons.get(("align_of<T>", "MAX_ALIGN"))
             if sz != frozenset("="):
